@@ -34,7 +34,9 @@ SPEC = dict(
           "(exhaustive): every interface-gated endpoint x verb on the snap socket x calling instance in {some-snap, "
           "some-snap_dev, other-snap, lookup fails} x per listed interface all subsets of these three holding an active "
           "plug-side connection, plus slot-side-only, undesired, hotplug-gone, look-alike interface names (extended, "
-          "truncated, upper case), unlisted interface, look-alike plug snap names. POLKIT-ACTION block (exhaustive): every "
+          "truncated, upper case), unlisted interface, look-alike plug snap names."
+          "plug / slot NAMES varied independently of the interface (plug or slot named like a listed interface while the "
+          "interface is `content`; genuine connections with arbitrary names). POLKIT-ACTION block (exhaustive): every "
           "endpoint x verb, plain user, polkit granting exactly one action. "
           "cred/parse/attach: (&ucrednet{..}).String() parsed back for boundary and random pid/uid/socket; "
           "ucrednetGetWithInterfaces and ucrednetAttachInterface on mutated credential strings, compared with the model. "
